@@ -62,8 +62,9 @@ def _(c):
     c.param("read_task", Fut(NONE))
     c.requires("read_task.done()", "callback-runs-when-the-task-is-done")
     c.ghost("$last", OCONN, "no_conn()")
+    c.ghost("$asked", BOOL, "False")
     c.ghost("$closed_as_broken", BOOL, "False")
-    c.call("self_ref", returns=OCONN, ghost={"$last": "result"},
+    c.call("self_ref", returns=OCONN, ghost={"$last": "result", "$asked": "True"},
            note="weakref call: the connection object, or None once it has been garbage collected")
     c.call("self.close", returns=Opt(Fut(NONE)), raises=[],
            modifies=["Conn._writer", "Conn._reader", "Conn._read_task", "Conn._requests", "Conn._on_close_cb", "Conn.g_closes",
@@ -80,8 +81,8 @@ def _(c):
         ("set", "$closed_as_broken", "True"),
     ])
     c.ensures_internal("a-reader-that-ended-with-an-error-closes-the-live-connection",
-                       "implies(old(read_task.exception()) is not None and is_exc(old(read_task.exception()), Exception)"
-                       " and $last is not None, $closed_as_broken)")
+                       "implies(old(read_task.exception()) is not None and is_exc(old(read_task.exception()), Exception),"
+                       " $asked and ($last is None or $closed_as_broken))")
 
 
 # replay: a real AIOKafkaConnection over an in-memory StreamReader; three pipelined requests, the first answered, then EOF
